@@ -43,14 +43,16 @@ def world(c, ctx):
     return dom, ex, W, F, h
 
 
-def side_b(klen):
-    """exchange_2 (responder): R_B, S_B, key"""
+def side_b(klen, used=False):
+    """exchange_2 (responder): R_B, S_B, key. used=True: the object has been through an earlier run (arbitrary remembered
+    v, r, R): the step must still draw a fresh scalar (a history of any length is an arbitrary pre-state)"""
     def body(stats):
         c = load_crate(CRATE)
         def run(ctx):
             dom, ex, W, F, h = world(c, ctx)
             d, pkb, pka, za, zb, ra = (z3.BitVec("dB", 256), z3.BitVec("PB", 768), z3.BitVec("PA", 768), z3.BitVec("ZB", 256), z3.BitVec("ZA", 256), z3.BitVec("RA", 768))
-            st = Cell(mk_exchange(klen, d, pkb, pka, za, zb), "exB")
+            old = dict(v=z3.BitVec("oldV", 768), r=z3.BitVec("oldr", 256), rpt=z3.BitVec("oldR", 768)) if used else {}
+            st = Cell(mk_exchange(klen, d, pkb, pka, za, zb, **old), "exB")
             r = ex.run_fn(c.find("Exchange::exchange_2"), [Ref(st, (), None, True), Ref(Cell(pt_val(ra), "RA"))])
             return dom, W, F, h, (d, pkb, pka, za, zb, ra), st.val, r
         paths = explore(run, prune=lambda a: smt.feasible(a, 5), max_paths=64)
@@ -70,6 +72,8 @@ def side_b(klen):
                 discharge(stats, hy, z3.Or(conds), "exchange_2 fails only if R_A is not a valid point or V is the point at infinity")
                 continue
             nok += 1
+            if not W.rng_draws:
+                raise Violation("exchange_2 succeeds without drawing a scalar in this invocation (a remembered r_B is reused)")
             rb = W.rng_draws[-1]
             RB = W.GMUL(rb)
             x1, y1 = coords(W, ra); x2, y2 = coords(W, RB)
@@ -96,7 +100,7 @@ def side_b(klen):
         if nok == 0:
             raise Inconclusive("no accepting path")
         return {"paths": len(paths)}
-    return run_obligation("exchange_2_responder_klen_%03d" % klen, ["gm_sm2::exchange::Exchange::exchange_2", "gm_sm2::util::kdf", "gm_sm2::u256::u256_bits_and"],
+    return run_obligation("exchange_2_responder_klen_%03d%s" % (klen, "_reused_object" if used else ""), ["gm_sm2::exchange::Exchange::exchange_2", "gm_sm2::util::kdf", "gm_sm2::u256::u256_bits_and"],
                           "klen = %d; all keys, Z values, R_A, scalars" % klen, body, STUBS)
 
 
@@ -150,17 +154,19 @@ def ob_exchange_1_4():
         # exchange_1: fresh scalar, R_A = [r_A]G, stored
         def run1(ctx):
             dom, ex, W, F, h = world(c, ctx)
-            st = Cell(mk_exchange(16, z3.BitVec("dA", 256), z3.BitVec("PA", 768), z3.BitVec("PB", 768), z3.BitVec("ZA", 256), z3.BitVec("ZB", 256)), "exA")
+            old = dict(v=z3.BitVec("oldV", 768), r=z3.BitVec("oldr", 256), rpt=z3.BitVec("oldR", 768)) if used else {}
+            st = Cell(mk_exchange(16, z3.BitVec("dA", 256), z3.BitVec("PA", 768), z3.BitVec("PB", 768), z3.BitVec("ZA", 256), z3.BitVec("ZB", 256), **old), "exA")
             r = ex.run_fn(c.find("Exchange::exchange_1"), [Ref(st, (), None, True)])
             return dom, W, st.val, r
-        paths = explore(run1)
-        check_all_panics(stats, paths)
-        for ctx, (dom, W, after, r) in live_paths(paths):
+        for used in (False, True):
+          paths = explore(run1)
+          check_all_panics(stats, paths)
+          for ctx, (dom, W, after, r) in live_paths(paths):
             if not result_ok(r) or len(W.rng_draws) != 1:
-                raise Violation("exchange_1 must draw one fresh scalar and succeed")
+                raise Violation("exchange_1 must draw one fresh scalar and succeed (object %s)" % ("reused" if used else "new"))
             RA = W.GMUL(W.rng_draws[0])
             discharge(stats, ctx.facts + ctx.pc, z3.And(pt_term(dom, r.f[0]) == RA, pt_term(dom, after.f[5].f[0]) == RA, u256_term(dom, after.f[4].f[0]) == W.rng_draws[0]),
-                      "R_A = [r_A]G, and (r_A, R_A) are remembered for step 3")
+                      "R_A = [r_A]G, and (r_A, R_A) are remembered for step 3 (object %s)" % ("reused" if used else "new"))
         # exchange_4: true iff S_A equals SM3(0x03 || yV || inner)
         def run4(ctx):
             dom, ex, W, F, h = world(c, ctx)
@@ -197,8 +203,9 @@ def ob_agreement():
 
 
 def run(tier, seed, t0):
-    klens = [1, 16, 32, 33] if tier == "quick" else list(range(1, 70))
+    klens = [1, 16, 32, 33, 64, 65] if tier == "quick" else list(range(1, 131))
     jobs = [ob_exchange_1_4, ob_agreement] + [(lambda k=k: side_b(k)) for k in klens] + [(lambda k=k: side_a(k)) for k in klens]
+    jobs += [lambda: side_b(16, used=True)]
     res = run_parallel(jobs, nproc=12)
     return finish("C15", tier, seed, "model_checking", res, t0,
                   assumptions=["layers uninterpreted; ZA/ZB are the values computed by compute_za (C03) at construction", "w = 127 for the 256-bit order n; cofactor h = 1",
